@@ -1,9 +1,12 @@
 #!/bin/bash
-# usage: seed_run.sh <dir with 1/ 2/ 3/> <Cxx> <lib test filter...>   each step holds the global lock (uses /tmp/wt/confirm and /repo)
+# usage: seed_run.sh <dir with 1/ 2/ 3/> <Cxx> <lib test filter...>
+# confirm steps hold /tmp/confirm.lock (scratch worktree /tmp/wt/confirm); try steps hold /tmp/seed_pipeline.lock (/repo + /verif)
 D=$1; ID=$2; shift 2
-L=/tmp/seed_pipeline.lock
 for k in $(ls $D | grep -E '^[0-9]+$'); do
-  [ -s $D/$k/confirm.json ] || flock $L /verif/tools/confirm_seeded.sh $D/$k "$@" > $D/$k/confirm.json 2>$D/$k/confirm.err
-  grep -q 'check exit' $D/$k/try.log 2>/dev/null || flock $L /verif/tools/try_seeded.sh $D/$k/patch.diff $ID quick > $D/$k/try.log 2>&1
+  [ -s $D/$k/confirm.json ] || flock /tmp/confirm.lock /verif/tools/confirm_seeded.sh $D/$k "$@" > $D/$k/confirm.json 2>$D/$k/confirm.err
+done &
+for k in $(ls $D | grep -E '^[0-9]+$'); do
+  grep -q 'check exit' $D/$k/try.log 2>/dev/null || flock /tmp/seed_pipeline.lock /verif/tools/try_seeded.sh $D/$k/patch.diff $ID quick > $D/$k/try.log 2>&1
 done
+wait
 echo done > $D/pipeline.done
